@@ -2,7 +2,7 @@
    An unrecognised key expression yields KsUnknown, a changed function body yields false; either
    breaks C11_facts_pinned. *)
 From Coq Require Import List.
-From MxlGen Require Import SymRepr Imports CallDefaults.
+From MxlGen Require Import SymRepr Imports CallDefaults NameScope Session.
 Import ListNotations.
 Definition gen_mxlgen_facts : gen_facts := mkGenFacts KsInit KsInit KsPlain KsPlain KsRxnStoich RegFresh true true PnAllArgs IcPositional RnDelegated EmExact.
 (* which sections of the emitted text the import loop of generate_mxlpy_code_from_symbolic_repr searches for which
@@ -10,3 +10,7 @@ Definition gen_mxlgen_facts : gen_facts := mkGenFacts KsInit KsInit KsPlain KsPl
 Definition gen_import_scan : option scan_table := (Some [(PMath, [SecFunctions; SecVariables; SecParameters; SecReactions]); (PScipySpecial, [SecFunctions; SecVariables; SecParameters; SecReactions]); (PSympyUnits, [SecFunctions; SecVariables; SecParameters; SecReactions])]).
 (* how fn_to_sympy (source_tools.py) binds the arguments of a translated call to the callee's parameters *)
 Definition gen_call_defaults : df_mode := DfRefuse.
+(* _handle_name (source_tools.py): the function's own symbols before the numbers of the module, or the other way round *)
+Definition gen_name_lookup : nl_mode := NlLocalsFirst.
+(* when the translator scans a module for callables / sub-modules / numbers: at every call, or once per process *)
+Definition gen_scan_mode : scan_mode := ScanAtCall.
